@@ -31,7 +31,7 @@ static int idof(const void * e) { return e ? ((const struct elem *)e)->id : -1; 
 static int cmpmode, cmpcalls;
 static int cmp(const void * a, const void * b, void * p)
 {
-    const struct elem * x = a, * y = b; (void)p;
+    const struct elem * x = a, * y = b; h_check_priv(p);
     int sg = (x->key > y->key) - (x->key < y->key);
     cmpcalls++;
     if (cmpmode == 1) return x->key - y->key;
@@ -43,7 +43,7 @@ static int vis_log[4 * MAXE], vis_n, vis_stop;
 static int vsign = 1;   /* sign of the visitor's non-zero answer (header vsign); the result is printed times vsign */
 static int visit(void * e, void * p)
 {
-    (void)p;
+    h_check_priv(p);
     if (vis_n < 4 * MAXE) vis_log[vis_n] = idof(e);
     vis_n++;
     return (vis_stop > 0 && vis_n == vis_stop) ? vsign * vis_stop : 0;
@@ -65,7 +65,7 @@ static void dump(void)
         printf(" | L%d: %zu %d %d", i, cstl_slist_size(&lists[i]),
                idof(cstl_slist_front(&lists[i])), idof(cstl_slist_back(&lists[i])));
         vis_n = 0; vis_stop = 0;
-        cstl_slist_foreach(&lists[i], visit, NULL);
+        cstl_slist_foreach(&lists[i], visit, H_COOKIE);
         for (k = 0; k < vis_n && k < 4 * MAXE; k++) printf(" %d", vis_log[k]);
     }
     printf("\n");
@@ -104,7 +104,7 @@ static void run_case(const struct h_case * c)
         else if (h_weq(l, 0, "back")) { printf("ok %d", idof(cstl_slist_back(&lists[a]))); }
         else if (h_weq(l, 0, "size")) { printf("ok %zu", cstl_slist_size(&lists[a])); }
         else if (h_weq(l, 0, "reverse")) { cstl_slist_reverse(&lists[a]); printf("ok "); }
-        else if (h_weq(l, 0, "sort")) { cstl_slist_sort(&lists[a], cmp, NULL); printf("ok "); }
+        else if (h_weq(l, 0, "sort")) { cstl_slist_sort(&lists[a], cmp, H_COOKIE); printf("ok "); }
         else if (h_weq(l, 0, "concat")) {
             if (b < 0 || b >= nlists) { printf("precond\n"); return; }
             cstl_slist_concat(&lists[a], &lists[b]); printf("ok ");
@@ -117,7 +117,7 @@ static void run_case(const struct h_case * c)
         else if (h_weq(l, 0, "foreach")) {
             int r;
             vis_n = 0; vis_stop = b;
-            r = cstl_slist_foreach(&lists[a], visit, NULL);
+            r = cstl_slist_foreach(&lists[a], visit, H_COOKIE);
             printf("ok %d", vsign * r);
             for (k = 0; k < vis_n && k < 4 * MAXE; k++) printf(" %d", vis_log[k]);
         }
